@@ -57,23 +57,19 @@ func buildExprs(exprs []Expression, builder Builder, joinCond string) {
 			case OrConditions:
 				if len(v.Exprs) == 1 {
 					if e, ok := v.Exprs[0].(Expr); ok {
-						sql := strings.ToUpper(e.SQL)
-						wrapInParentheses = strings.Contains(sql, AndWithSpace) || strings.Contains(sql, OrWithSpace)
+						wrapInParentheses = containsAndOr(e.SQL)
 					}
 				}
 			case AndConditions:
 				if len(v.Exprs) == 1 {
 					if e, ok := v.Exprs[0].(Expr); ok {
-						sql := strings.ToUpper(e.SQL)
-						wrapInParentheses = strings.Contains(sql, AndWithSpace) || strings.Contains(sql, OrWithSpace)
+						wrapInParentheses = containsAndOr(e.SQL)
 					}
 				}
 			case Expr:
-				sql := strings.ToUpper(v.SQL)
-				wrapInParentheses = strings.Contains(sql, AndWithSpace) || strings.Contains(sql, OrWithSpace)
+				wrapInParentheses = containsAndOr(v.SQL)
 			case NamedExpr:
-				sql := strings.ToUpper(v.SQL)
-				wrapInParentheses = strings.Contains(sql, AndWithSpace) || strings.Contains(sql, OrWithSpace)
+				wrapInParentheses = containsAndOr(v.SQL)
 			}
 		}
 
@@ -86,6 +82,31 @@ func buildExprs(exprs []Expression, builder Builder, joinCond string) {
 			expr.Build(builder)
 		}
 	}
+}
+
+// containsAndOr reports whether the raw SQL contains an AND / OR keyword in any
+// letter case, delimited by spaces, tabs, new lines or parentheses
+func containsAndOr(sql string) bool {
+	isWordChar := func(c byte) bool {
+		return c == '_' || (c >= '0' && c <= '9') || (c >= 'a' && c <= 'z') || (c >= 'A' && c <= 'Z')
+	}
+
+	sql = strings.ToUpper(sql)
+	for _, keyword := range []string{"AND", "OR"} {
+		for offset := 0; ; {
+			idx := strings.Index(sql[offset:], keyword)
+			if idx == -1 {
+				break
+			}
+			idx += offset
+			end := idx + len(keyword)
+			if idx > 0 && end < len(sql) && !isWordChar(sql[idx-1]) && !isWordChar(sql[end]) {
+				return true
+			}
+			offset = idx + 1
+		}
+	}
+	return false
 }
 
 // MergeClause merge where clauses
@@ -190,8 +211,7 @@ func (not NotConditions) Build(builder Builder) {
 				builder.WriteString("NOT ")
 				e, wrapInParentheses := c.(Expr)
 				if wrapInParentheses {
-					sql := strings.ToUpper(e.SQL)
-					if wrapInParentheses = strings.Contains(sql, AndWithSpace) || strings.Contains(sql, OrWithSpace); wrapInParentheses {
+					if wrapInParentheses = containsAndOr(e.SQL); wrapInParentheses {
 						builder.WriteByte('(')
 					}
 				}
@@ -225,8 +245,7 @@ func (not NotConditions) Build(builder Builder) {
 
 			e, wrapInParentheses := c.(Expr)
 			if wrapInParentheses {
-				sql := strings.ToUpper(e.SQL)
-				if wrapInParentheses = strings.Contains(sql, AndWithSpace) || strings.Contains(sql, OrWithSpace); wrapInParentheses {
+				if wrapInParentheses = containsAndOr(e.SQL); wrapInParentheses {
 					builder.WriteByte('(')
 				}
 			}
